@@ -364,7 +364,19 @@ def r_dump_atomic(ctx):
                 continue
             renames = [U.node_containing(cfg, c2).id for c2 in P.calls_in(m) if unparse(c2.func) in ('atomicReplace', 'os.rename', 'os.replace')
                        and len(c2.args) == 2 and P.self_attr(c2.args[1], m.self_name) == fname and unparse(c2.args[0]) == unparse(tgt)]
-            if renames:
+            # the rename happens after the written file was closed: not inside the `with open(tmp) ..` that writes it
+            inside = None
+            for c2 in P.calls_in(m):
+                if unparse(c2.func) in ('atomicReplace', 'os.rename', 'os.replace') and len(c2.args) == 2 and P.self_attr(c2.args[1], m.self_name) == fname:
+                    n2 = U.node_containing(cfg, c2)
+                    for w_ in (n2.parents if n2 is not None else ()):
+                        if isinstance(w_, ast.With) and any(x is c for it_ in w_.items for x in ast.walk(it_.context_expr)):
+                            inside = c2
+            if renames and inside is not None:
+                ctx.violation('%s:renamed-before-close' % m.qualname, m.loc(inside),
+                              'the temporary dump is renamed onto the dump path inside the `with open(..)` block that writes it: the tail of the data is still in the '
+                              'file object\'s buffer, so a kill before the block ends leaves an empty or truncated file under the final name', instance=inst)
+            elif renames:
                 ctx.ok(inst, m.loc(c), 'writes `%s`, renamed onto the dump path by an atomic replace' % unparse(tt))
             else:
                 ctx.violation('%s:tmp-dump-never-renamed' % m.qualname, m.loc(c), 'the temporary dump `%s` is never renamed onto the dump path atomically' % unparse(tt), instance=inst)
